@@ -153,7 +153,9 @@ func TestC07(t *testing.T) {
 			t.Fatal(err)
 		}
 		l := &local{}
-		c07Case(r, l, rc.Line)
+		for i := 0; i < 5; i++ { // every preparation of the reused receiver
+			c07Case(r, l, rc.Line)
+		}
 		r.Eval(l.e)
 		r.NontrivialN(2)
 		if r.Finish() > 0 {
@@ -1147,6 +1149,56 @@ func runStorageFold(r *mon.Run, c stFold, q *int64) {
 	}
 }
 
+// storageReaders: several sources in one call, each a hosts file of its own (a last line without a newline ends
+// there).  Replayed as a whole.
+func storageReaders(r *mon.Run) {
+	var q2 int64
+	parts := []string{"192.0.2.1 one.example\n192.0.2.2 two", "192.0.2.3 three.example\n", "", "192.0.2.4 four.example # c", "\n\n192.0.2.1 ONE.example"}
+	for n := 1; n <= len(parts); n++ {
+		for rot := 0; rot < len(parts); rot++ {
+			var rs []io.Reader
+			mm := newModel()
+			var used []string
+			for k := 0; k < n; k++ {
+				p := parts[(rot+k)%len(parts)]
+				used = append(used, p)
+				if k%2 == 0 {
+					rs = append(rs, strings.NewReader(p))
+				} else {
+					rs = append(rs, bytes.NewBufferString(p))
+				}
+				for _, ln := range refLines([]byte(p)) {
+					if rr := refParse(ln); rr.cls == clsOK {
+						mm.add(rr.addr, rr.names)
+					}
+				}
+			}
+			st, err := hostsfile.NewDefaultStorage(rs...)
+			what := ""
+			if err != nil {
+				what = fmt.Sprintf("error %v", err)
+			} else {
+				for _, a := range []string{"192.0.2.1", "192.0.2.2", "192.0.2.3", "192.0.2.4"} {
+					q2++
+					if got := st.ByAddr(netip.MustParseAddr(a)); !slices.Equal(got, mm.names[netip.MustParseAddr(a)]) {
+						what = fmt.Sprintf("ByAddr(%s)=%q, the lines of the sources say %q", a, got, mm.names[netip.MustParseAddr(a)])
+					}
+				}
+				for _, nm := range []string{"one.example", "two", "three.example", "four.example"} {
+					q2++
+					if got := st.ByName(nm); !slices.Equal(got, mm.addrs[nm]) {
+						what = fmt.Sprintf("ByName(%s)=%v, the lines of the sources say %v", nm, got, mm.addrs[nm])
+					}
+				}
+			}
+			if what != "" {
+				r.Violation(fmt.Sprintf("storage-readers:%d:%d", n, rot), fmt.Sprintf("NewDefaultStorage(%d readers with the texts %q): %s", n, used, what), map[string]any{"texts": used})
+			}
+		}
+	}
+	r.Eval(q2)
+}
+
 func TestStorage(t *testing.T) {
 	r := mon.Start("C08", "storage")
 	var rc []stRec
@@ -1156,7 +1208,9 @@ func TestStorage(t *testing.T) {
 		var q int64
 		var bc stBig
 		var fc stFold
-		if _, isList := probe.([]any); isList {
+		if pm, isMap := probe.(map[string]any); isMap && pm["texts"] != nil {
+			storageReaders(r)
+		} else if _, isList := probe.([]any); isList {
 			if _, err := mon.ReplayCase("storage", &rc); err != nil {
 				t.Fatal(err)
 			}
@@ -1252,54 +1306,7 @@ func TestStorage(t *testing.T) {
 			r.Count("special_casing_histories", int64(hi-lo))
 		})
 	}
-	// several sources in one call: each is a hosts file of its own (a last line without a newline ends there)
-	{
-		var q2 int64
-		parts := []string{"192.0.2.1 one.example\n192.0.2.2 two", "192.0.2.3 three.example\n", "", "192.0.2.4 four.example # c", "\n\n192.0.2.1 ONE.example"}
-		for n := 1; n <= len(parts); n++ {
-			for rot := 0; rot < len(parts); rot++ {
-				var rs []io.Reader
-				mm := newModel()
-				var used []string
-				for k := 0; k < n; k++ {
-					p := parts[(rot+k)%len(parts)]
-					used = append(used, p)
-					if k%2 == 0 {
-						rs = append(rs, strings.NewReader(p))
-					} else {
-						rs = append(rs, bytes.NewBufferString(p))
-					}
-					for _, ln := range refLines([]byte(p)) {
-						if rr := refParse(ln); rr.cls == clsOK {
-							mm.add(rr.addr, rr.names)
-						}
-					}
-				}
-				st, err := hostsfile.NewDefaultStorage(rs...)
-				what := ""
-				if err != nil {
-					what = fmt.Sprintf("error %v", err)
-				} else {
-					for _, a := range []string{"192.0.2.1", "192.0.2.2", "192.0.2.3", "192.0.2.4"} {
-						q2++
-						if got := st.ByAddr(netip.MustParseAddr(a)); !slices.Equal(got, mm.names[netip.MustParseAddr(a)]) {
-							what = fmt.Sprintf("ByAddr(%s)=%q, the lines of the sources say %q", a, got, mm.names[netip.MustParseAddr(a)])
-						}
-					}
-					for _, nm := range []string{"one.example", "two", "three.example", "four.example"} {
-						q2++
-						if got := st.ByName(nm); !slices.Equal(got, mm.addrs[nm]) {
-							what = fmt.Sprintf("ByName(%s)=%v, the lines of the sources say %v", nm, got, mm.addrs[nm])
-						}
-					}
-				}
-				if what != "" {
-					r.Violation(fmt.Sprintf("storage-readers:%d:%d", n, rot), fmt.Sprintf("NewDefaultStorage(%d readers with the texts %q): %s", n, used, what), map[string]any{"texts": used})
-				}
-			}
-		}
-		r.Eval(q2)
-	}
+	storageReaders(r)
 	// storage fed through Parse: NewDefaultStorage(reader) equals Add-by-Add
 	var q int64
 	txt := "1.2.3.4 a.example A.Example\n::1 über.example\nbad\n1.2.3.4 ÜBER.example b.example # c\n\n1.2.3.4\n"
